@@ -83,6 +83,12 @@ func init() {
 	add("bad-utf8-overlong", append(wire.MkClose(3000, ""), 0xc0, 0xaf), rmViolation)
 	add("bad-utf8-surrogate", append(wire.MkClose(1001, "x"), 0xed, 0xa0, 0x80), rmViolation)
 	add("bad-utf8-long", append(wire.MkClose(1000, string(bytes.Repeat([]byte("a"), 122))), 0x80), rmViolation)
+	// the longest possible body (125 bytes) ending inside a multi-byte character
+	add("bad-utf8-125-truncated-2-of-3", append(wire.MkClose(1000, string(bytes.Repeat([]byte("a"), 121))), 0xe4, 0xb8), rmViolation)
+	add("bad-utf8-125-truncated-1-of-2", append(wire.MkClose(3999, string(bytes.Repeat([]byte("b"), 122))), 0xc3), rmViolation)
+	add("bad-utf8-125-truncated-3-of-4", append(wire.MkClose(1001, string(bytes.Repeat([]byte("c"), 120))), 0xf0, 0x9f, 0x98), rmViolation)
+	add("valid-1000-replacement-char", wire.MkClose(1000, "a\ufffdb"), rmLegal)
+	add("valid-4999-123-multibyte", wire.MkClose(4999, string(bytes.Repeat([]byte("界"), 41))), rmLegal)
 }
 
 const nHistories = 6
@@ -485,6 +491,10 @@ func c04Case(ctx *core.Ctx, out *core.Out, h int, server, comp bool, f nextFrame
 		}
 		closes := 0
 		for _, wf := range wframes {
+			if wf.Masked == server {
+				fail("reply-frame-wrong-masking:"+kind, fmt.Sprintf("the reader (server=%v) wrote a frame with MASK=%v: a conformant peer rejects it and never learns the status", server, wf.Masked), nil)
+				return
+			}
 			if wf.Op == 8 {
 				closes++
 				code, _, ok := wire.CloseBody(wf.Payload)
@@ -642,6 +652,21 @@ func c04Random(ctx *core.Ctx, out *core.Out) {
 		out.Violate("C04:"+sig+":"+kind, what, desc)
 	}
 	nc := xport.New(xport.Rechunk(stream, ex.Chunk, r))
+	if idle := ctx.Idx%1500 == 77; idle {
+		// the peer is silent for longer than the library's one-second reply allowance before it
+		// sends the violating frame: the 1002 close is owed all the same
+		pre := len(wire.Encode(frames))
+		nc = xport.New(xport.Rechunk(stream[:pre], ex.Chunk, r))
+		nc.Block = true
+		rest := xport.Rechunk(stream[pre:], ex.Chunk, r)
+		go func() {
+			time.Sleep(1200 * time.Millisecond)
+			nc.Feed(rest...)
+		}()
+		defer nc.Close()
+		desc["peer_idle_before_the_violating_frame"] = "1.2 s"
+		out.Count("violations_after_an_idle_period", 1)
+	}
 	c := ws.VerifNewConn(nc, server, ex.RB, 4096, nil, nil, comp)
 	rd := &Reader{C: c}
 	rd.InstallRecordingHandlers()
